@@ -22,7 +22,7 @@ pub fn decode_stream(data: &[u8]) -> Stream {
         f: match (o0 >> 3) & 3 { 0 | 1 => None, 2 => Some(vec![11, 17, 4, 20]), _ => Some(vec![0, 5, 16, 18, 21]) },
         i: vec![disp.to_string()],
         o: vec![ord.to_string()],
-        d: [1i64, 5, 60, 600][((o0 >> 5) & 3) as usize],
+        d: [0i64, 5, 60, 600][((o0 >> 5) & 3) as usize],
         upd: [-1i64, 0, 3, 1000][((o1 >> 6) & 3) as usize],
         m: if o0 & 0x80 != 0 { Some(vec![17, 4]) } else { None },
         dl: false,
@@ -77,7 +77,8 @@ pub fn check_stream_bytes(data: &[u8]) -> Result<(), (String, String)> {
     }
     let admitted = s.opts.f.as_ref().map(|f| f.contains(&11)).unwrap_or(true);
     let snap = run::snapshot(&t);
-    if admitted && !snap.contains_key(&SENTINEL_ADDR) {
+    // (with -d 0 every sweep empties the table, the sentinel's row included)
+    if admitted && s.opts.d > 0 && !snap.contains_key(&SENTINEL_ADDR) {
         return Err(("C01".into(), "the well-formed line after the stream was not processed".into()));
     }
     // C13: table(stream) == table(accepted subsequence); only when no line could be both invalid UTF-8 and of an accepted digit count
